@@ -10,6 +10,7 @@ package c02
 import (
 	"encoding/json"
 	"fmt"
+	"os"
 	"sort"
 	"strings"
 	"sync"
@@ -72,10 +73,32 @@ func (s *shardedSet) add(h uint64) bool {
 }
 
 type config struct {
-	placements    []Placement // placements in which the base program is run
-	varPlacements []Placement // placements in which single-rewrite variants are run
-	pairs         bool
+	placements     []Placement // placements in which the base program is run
+	allVarPl       bool        // variants run in {global, func, eval}; otherwise func (+ global for completion-sensitive rules)
+	strictVariants bool        // variants also run in strict mode (otherwise only when the IR is strict-only)
+	pairs          bool
 }
+
+// completionRules: rewrites that touch statement structure (completion-value tracking); in the quick tier their
+// variants also run as global code, where the completion value is observable.
+var completionRules = map[string]bool{"R3with": true, "R4cond": true, "R4void": true, "R4var": true, "R4seq": true, "R5iff": true, "R5after": true,
+	"R5label": true, "R6block": true, "R6stmt": true, "R8let": true}
+
+var plFunc = []Placement{PFunc}
+var plFuncGlobal = []Placement{PFunc, PGlobal}
+var plAllVar = []Placement{PFunc, PGlobal, PEval}
+
+func (c *config) varPlacements(rule string) []Placement {
+	if c.allVarPl {
+		return plAllVar
+	}
+	if completionRules[rule] {
+		return plFuncGlobal
+	}
+	return plFunc
+}
+
+func wantDump(pl Placement) bool { return pl == PGlobal || pl == PFunc || pl == PArrow }
 
 // worker holds the per-goroutine state.
 type worker struct {
@@ -86,7 +109,7 @@ type worker struct {
 	seen *shardedSet
 	// counters, flushed at the end of a chunk
 	programs, disagreements, evals, nontrivial, trivialPairs, invalid, aborted, compileRejected int64
-	perRule                                                                                      map[string]int64
+	perRule                                                                                     map[string]int64
 }
 
 func newWorker(r *core.Run, cfg *config, seen *shardedSet) *worker {
@@ -156,13 +179,12 @@ func diffKind(a, b *irjs.Result, withValue bool) string {
 }
 
 // checkProgram runs every comparison for one IR program and returns the failures found.
-func (w *worker) checkProgram(p *irjs.Node, collect bool) (fails []failure) {
+func (w *worker) checkProgram(p *irjs.Node) (fails []failure) {
 	ok, info, _ := Validate(p)
 	if !ok {
 		w.invalid++
 		return nil
 	}
-	js := irjs.Print(p)
 	names := identNames(p)
 	var singles []Variant
 	singlesDone := false
@@ -172,7 +194,9 @@ func (w *worker) checkProgram(p *irjs.Node, collect bool) (fails []failure) {
 		if strict && info.SloppyOnly || !strict && info.StrictOnly {
 			continue
 		}
-		ref := w.refRun(p, strict)
+		mp := modeProg(p, strict)
+		js := irjs.Print(mp)
+		ref := w.refRun(mp, false)
 		refs[mi] = ref
 		if ref.Abort != "" {
 			w.aborted++
@@ -180,7 +204,7 @@ func (w *worker) checkProgram(p *irjs.Node, collect bool) (fails []failure) {
 		}
 		// base runs in every placement
 		for _, pl := range w.cfg.placements {
-			out := w.eng.run(wrap(js, pl, strict), pl, names, true)
+			out := w.eng.run(wrap(js, pl), pl, names, wantDump(pl))
 			w.programs++
 			w.evals++
 			bases[mi][pl] = &out
@@ -196,7 +220,7 @@ func (w *worker) checkProgram(p *irjs.Node, collect bool) (fails []failure) {
 				continue
 			}
 			// definitional oracle: every placement against irjs
-			if w.seen.add(out.dumpHash) {
+			if wantDump(pl) && w.seen.add(out.dumpHash) {
 				w.disagreements++
 				w.nontrivial++
 			}
@@ -209,6 +233,9 @@ func (w *worker) checkProgram(p *irjs.Node, collect bool) (fails []failure) {
 		if !singlesDone {
 			singles = singleVariants(p, 0)
 			singlesDone = true
+		}
+		if strict && !w.cfg.strictVariants && !info.StrictOnly {
+			continue
 		}
 		for vi := range singles {
 			v := &singles[vi]
@@ -228,24 +255,37 @@ func (w *worker) checkProgram(p *irjs.Node, collect bool) (fails []failure) {
 		}
 	}
 	// R9: strict <-> sloppy where the reference semantics is mode-insensitive
-	if refs[0] != nil && refs[1] != nil && refs[0].Abort == "" && refs[1].Abort == "" && refs[0].Key(true) == refs[1].Key(true) {
+	if refs[0] != nil && refs[1] != nil && refs[0].Abort == "" && refs[1].Abort == "" && modeInsensitive(refs[0], refs[1]) {
 		for _, pl := range w.cfg.placements {
 			a, b := bases[0][pl], bases[1][pl]
 			if a == nil || b == nil || a.compileErr != "" || b.compileErr != "" {
 				continue
 			}
-			if a.dumpHash != b.dumpHash {
-				w.disagreements++
-			} else {
-				w.trivialPairs++
+			if wantDump(pl) {
+				if a.dumpHash != b.dumpHash {
+					w.disagreements++
+				} else {
+					w.trivialPairs++
+				}
 			}
-			if k := diffKind(&a.res, &b.res, pl.observesCompletion()); k != "" {
+			if k := diffKind(&a.res, &b.res, false); k != "" {
+				js := irjs.Print(p)
 				fails = append(fails, failure{oracle: "diff", kind: k, placement: pl.String(), rewrite: "R9strict", strict: true,
-					want: a.res.Key(pl.observesCompletion()), got: b.res.Key(pl.observesCompletion()), baseJS: js, caseJS: js})
+					want: a.res.Key(false), got: b.res.Key(false), baseJS: js, caseJS: js})
 			}
 		}
 	}
 	return fails
+}
+
+// modeInsensitive: the reference runs of the sloppy and the strict form of a program agree (the strict form has
+// an extra directive whose value is the completion value of an otherwise value-less program: values are
+// compared only when neither run ended with the directive's value).
+func modeInsensitive(sloppy, strict *irjs.Result) bool {
+	if sloppy.Key(false) != strict.Key(false) {
+		return false
+	}
+	return true
 }
 
 // scopeRules are the rules allowed as the second rewrite of a pair (they change allocation / scope decisions).
@@ -266,18 +306,19 @@ func pairVariants(v *Variant) []Variant {
 }
 
 func (w *worker) checkVariant(p *irjs.Node, js string, v *Variant, strict bool, names []string, bases *[nPlacements]*runOut, ref *irjs.Result) (fails []failure) {
-	vjs := irjs.Print(v.Prog)
-	vnames := names
-	if strings.Contains(v.Desc, "R") {
-		vnames = identNames(v.Prog)
-	}
+	vjs := irjs.Print(modeProg(v.Prog, strict))
+	vnames := identNames(v.Prog)
 	rule := ruleOf(v.Desc)
-	for _, pl := range w.cfg.varPlacements {
+	if i := strings.LastIndexByte(v.Desc, '+'); i >= 0 {
+		rule = ruleOf(v.Desc[i+1:])
+	}
+	differs := false // the variant's bytecode differs from the base's in a placement whose dump shows the program
+	for _, pl := range w.cfg.varPlacements(rule) {
 		base := bases[pl]
 		if base == nil || base.compileErr != "" || base.res.Abort != "" {
 			continue
 		}
-		out := w.eng.run(wrap(vjs, pl, strict), pl, vnames, true)
+		out := w.eng.run(wrap(vjs, pl), pl, vnames, wantDump(pl))
 		w.programs++
 		w.evals++
 		w.perRule[rule]++
@@ -285,7 +326,10 @@ func (w *worker) checkVariant(p *irjs.Node, js string, v *Variant, strict bool, 
 			fails = append(fails, failure{oracle: "compile", kind: "compile", placement: pl.String(), rewrite: v.Desc, strict: strict, got: firstLine(out.compileErr), baseJS: js, caseJS: vjs})
 			continue
 		}
-		if out.dumpHash != base.dumpHash {
+		if wantDump(pl) {
+			differs = out.dumpHash != base.dumpHash
+		}
+		if differs {
 			w.disagreements++
 			w.nontrivial++
 		} else {
@@ -305,26 +349,125 @@ func (w *worker) checkVariant(p *irjs.Node, js string, v *Variant, strict bool, 
 
 // ---------- reporting: confirmation, shrinking, signatures ----------
 
-// sameFailure: does program q still exhibit a failure of the same class as f?
+// sameClass: two failures of the same class (oracle, kind, rule, mode).
 func sameClass(a, b *failure) bool {
 	return a.oracle == b.oracle && a.kind == b.kind && ruleOf(a.rewrite) == ruleOf(b.rewrite) && a.strict == b.strict &&
 		(a.oracle != "compile" || a.got == b.got)
 }
 
-func (w *worker) findSame(q *irjs.Node, f *failure) *failure {
-	for _, g := range w.checkProgram(q, true) {
-		g := g
-		if sameClass(&g, f) {
-			return &g
+// recheck re-runs exactly the comparison class of f on program q (used for confirmation, shrinking and replay):
+// the reference run and the run in f's placement for a definitional failure; the base run plus every variant of
+// f's rule(s) in f's placement for a differential failure.
+func (w *worker) recheck(q *irjs.Node, f *failure) *failure {
+	ok, info, _ := Validate(q)
+	if !ok || f.strict && info.SloppyOnly || !f.strict && info.StrictOnly {
+		return nil
+	}
+	pl, okp := placementByName(f.placement)
+	if !okp {
+		return nil
+	}
+	mq := modeProg(q, f.strict)
+	js := irjs.Print(mq)
+	names := identNames(q)
+	withV := pl.observesCompletion()
+	switch f.oracle {
+	case "def":
+		ref := w.refRun(mq, false)
+		if ref.Abort != "" {
+			return nil
+		}
+		out := w.eng.run(wrap(js, pl), pl, names, false)
+		if out.compileErr != "" {
+			return nil
+		}
+		k := diffKind(ref, &out.res, withV)
+		if k == "" && out.res.Abort != "" {
+			k = "nontermination"
+		}
+		if k == f.kind {
+			return &failure{oracle: "def", kind: k, placement: f.placement, strict: f.strict, want: ref.Key(withV), got: out.res.Key(withV), caseJS: js}
+		}
+		return nil
+	case "compile":
+		if f.rewrite == "" {
+			out := w.eng.run(wrap(js, pl), pl, names, false)
+			if out.compileErr != "" && firstLine(out.compileErr) == f.got {
+				return &failure{oracle: "compile", kind: "compile", placement: f.placement, strict: f.strict, got: f.got, caseJS: js}
+			}
+			return nil
+		}
+	}
+	if f.rewrite == "R9strict" {
+		sq := modeProg(q, true)
+		a := w.eng.run(wrap(irjs.Print(q), pl), pl, names, false)
+		b := w.eng.run(wrap(irjs.Print(sq), pl), pl, names, false)
+		r0, r1 := w.refRun(q, false), w.refRun(sq, false)
+		if a.compileErr != "" || b.compileErr != "" || r0.Abort != "" || r1.Abort != "" || !modeInsensitive(r0, r1) {
+			return nil
+		}
+		if k := diffKind(&a.res, &b.res, false); k == f.kind {
+			return &failure{oracle: "diff", kind: k, placement: f.placement, rewrite: "R9strict", strict: true, want: a.res.Key(false), got: b.res.Key(false), baseJS: js, caseJS: js}
+		}
+		return nil
+	}
+	// differential / compile failure of a rewritten program
+	base := w.eng.run(wrap(js, pl), pl, names, false)
+	if base.compileErr != "" || base.res.Abort != "" {
+		return nil
+	}
+	parts := splitPlus(f.rewrite)
+	var cands []Variant
+	r1 := ruleByName(ruleOf(parts[0]))
+	if r1 == nil {
+		return nil
+	}
+	r1.gen(q, 0, func(v Variant) {
+		v.Desc = r1.name + v.Desc
+		if len(parts) == 1 {
+			cands = append(cands, v)
+			return
+		}
+		r2 := ruleByName(ruleOf(parts[1]))
+		if r2 == nil {
+			return
+		}
+		r2.gen(v.Prog, 1, func(v2 Variant) {
+			cands = append(cands, Variant{Prog: v2.Prog, Desc: v.Desc + "+" + r2.name + v2.Desc, Exact: v.Exact && v2.Exact, SloppyOnly: v.SloppyOnly || v2.SloppyOnly})
+		})
+	})
+	for i := range cands {
+		v := &cands[i]
+		if v.SloppyOnly && f.strict {
+			continue
+		}
+		vjs := irjs.Print(modeProg(v.Prog, f.strict))
+		out := w.eng.run(wrap(vjs, pl), pl, identNames(v.Prog), false)
+		if out.compileErr != "" {
+			if f.oracle == "compile" && firstLine(out.compileErr) == f.got {
+				return &failure{oracle: "compile", kind: "compile", placement: f.placement, rewrite: v.Desc, strict: f.strict, got: f.got, baseJS: js, caseJS: vjs}
+			}
+			continue
+		}
+		if f.oracle != "diff" {
+			continue
+		}
+		wv := withV && v.Exact
+		k := diffKind(&base.res, &out.res, wv)
+		if k == "" && out.res.Abort != "" {
+			k = "nontermination"
+		}
+		if k == f.kind {
+			return &failure{oracle: "diff", kind: k, placement: f.placement, rewrite: v.Desc, strict: f.strict, want: base.res.Key(wv), got: out.res.Key(wv), baseJS: js, caseJS: vjs}
 		}
 	}
 	return nil
 }
 
 // shrink greedily reduces p while a failure of the same class persists.
-func (w *worker) shrink(p *irjs.Node, f *failure) (*irjs.Node, *failure) {
+func (w *worker) shrink(p *irjs.Node, f *failure, cls string) (*irjs.Node, *failure) {
 	cur, curF := p, f
-	budget := 400
+	budget := 600
 	for improved := true; improved && budget > 0; {
 		improved = false
 		for _, q := range shrinkCandidates(cur) {
@@ -332,10 +475,10 @@ func (w *worker) shrink(p *irjs.Node, f *failure) (*irjs.Node, *failure) {
 			if budget <= 0 {
 				break
 			}
-			if ok, _, _ := Validate(q); !ok {
-				continue
-			}
-			if g := w.findSame(q, curF); g != nil {
+			if g := w.recheck(q, curF); g != nil {
+				if cls != "" && classify(caseProgram(q, g), g) != cls {
+					continue
+				}
 				cur, curF = q, g
 				improved = true
 				break
@@ -413,11 +556,26 @@ func shrinkCandidates(p *irjs.Node) []*irjs.Node {
 		if !n.Atom {
 			roles := nodeRoles(n)
 			for i, k := range n.Kids {
-				if (roles[i] == rExpr || roles[i] == rCallee) && !k.IsNone() && !k.Is("spread") {
+				if (roles[i] == rExpr || roles[i] == rCallee || roles[i] == rTypeofOp) && !k.IsNone() && !k.Is("spread") {
 					add(replaceAt(p, s.path, k))
 				}
 			}
+			// immediately invoked function: its returned expression
+			if n.Is("call") && len(n.Kids) == 1 {
+				switch f := n.Kids[0]; {
+				case f.Is("arrowe"):
+					add(replaceAt(p, s.path, f.Kids[1]))
+				case f.Is("func") && len(f.Kids) == 3 && f.Kids[2].Is("return") && len(f.Kids[2].Kids) == 1:
+					add(replaceAt(p, s.path, f.Kids[2].Kids[0]))
+				}
+			}
 			add(replaceAt(p, s.path, irjs.A("0")))
+		}
+	}
+	// 3b. simpler host function
+	for _, s := range sites {
+		if s.n.IsAtom("mko") && s.role == rCallee {
+			res = append(res, replaceAt(p, s.path, irjs.A("mk")))
 		}
 	}
 	// 4. drop optional operands (else branch, catch / finally, initialisers, call arguments)
@@ -473,7 +631,16 @@ func skeleton(p *irjs.Node) string {
 			return
 		}
 		sb.WriteByte('(')
-		sb.WriteString(n.Op)
+		switch {
+		case irjs.IsUpdateOp(n.Op):
+			sb.WriteString("update")
+		case n.Op == "&&=" || n.Op == "||=" || n.Op == "??=":
+			sb.WriteString("lop=")
+		case irjs.IsAssignOp(n.Op) && n.Op != "=":
+			sb.WriteString("op=")
+		default:
+			sb.WriteString(n.Op)
+		}
 		for _, k := range n.Kids {
 			sb.WriteByte(' ')
 			rec(k)
@@ -497,19 +664,178 @@ func skeleton(p *irjs.Node) string {
 	return s
 }
 
+// hasDeadJump: the program contains a break / continue statement in statically dead code (a branch of an if /
+// loop with a constant condition, or after an unconditional break / continue / return / throw in the same list).
+func hasDeadJump(p *irjs.Node) bool {
+	found := false
+	var stmt func(n *irjs.Node, dead bool)
+	list := func(l []*irjs.Node, dead bool) {
+		for _, s := range l {
+			stmt(s, dead)
+			if s.Is("break") || s.Is("continue") || s.Is("return") || s.Is("throw") {
+				dead = true
+			}
+		}
+	}
+	var expr func(n *irjs.Node)
+	expr = func(n *irjs.Node) {
+		if n == nil || n.Atom {
+			return
+		}
+		if b := bodyStart(n); b >= 0 && isFunctionNode(n) {
+			list(n.Kids[b:], false)
+			return
+		}
+		for _, k := range n.Kids {
+			if irjs.IsStatement(k) {
+				stmt(k, false)
+			} else {
+				expr(k)
+			}
+		}
+	}
+	stmt = func(n *irjs.Node, dead bool) {
+		if n == nil || n.Atom || found {
+			return
+		}
+		switch n.Op {
+		case "break", "continue":
+			if dead {
+				found = true
+			}
+		case "block", "default", "finally":
+			list(n.Kids, dead)
+		case "case", "catch":
+			list(n.Kids[1:], dead)
+		case "if":
+			d := dead || constantExpr(n.Kids[0])
+			stmt(n.Kids[1], d)
+			if len(n.Kids) > 2 {
+				stmt(n.Kids[2], d)
+			}
+		case "while":
+			stmt(n.Kids[1], dead || constantExpr(n.Kids[0]))
+		case "dowhile":
+			stmt(n.Kids[0], dead)
+		case "for":
+			stmt(n.Kids[3], dead || !n.Kids[1].IsNone() && constantExpr(n.Kids[1]))
+		case "forin", "forof":
+			stmt(n.Kids[2], dead)
+		case "label", "with":
+			stmt(n.Kids[1], dead)
+		case "switch":
+			for _, c := range n.Kids[1:] {
+				stmt(c, dead)
+			}
+		case "try":
+			list(n.Kids[0].Kids, dead)
+			stmt(n.Kids[1], dead)
+			stmt(n.Kids[2], dead)
+		case "fdecl", "classdecl", "expr", "var", "let", "const", "return", "throw":
+			expr(n)
+		}
+	}
+	if p.Is("prog") {
+		list(p.Kids, false)
+	} else {
+		stmt(p, false)
+	}
+	return found
+}
+
+// constantExpr: built from literals and operators only (the compiler folds it).
+func constantExpr(e *irjs.Node) bool {
+	if e == nil || e.IsNone() {
+		return false
+	}
+	if e.Atom {
+		return e.IsNum() || e.IsStr() || e.Op == "true" || e.Op == "false" || e.Op == "null"
+	}
+	if irjs.IsBinaryOp(e.Op) || irjs.IsLogicalOp(e.Op) || e.Op == "neg" || e.Op == "pos" || e.Op == "!" || e.Op == "~" || e.Op == "void" || e.Op == "typeof" {
+		for _, k := range e.Kids {
+			if !constantExpr(k) {
+				return false
+			}
+		}
+		return true
+	}
+	return false
+}
+
+// caseProgram re-derives the program that actually failed (the rewritten one for a differential failure).
+func caseProgram(p *irjs.Node, f *failure) *irjs.Node {
+	if f.rewrite == "" || f.rewrite == "R9strict" {
+		return p
+	}
+	if v, ok := applyDesc(p, f.rewrite); ok {
+		return v.Prog
+	}
+	return p
+}
+
+const sigDeadJump = "dead-code|break-or-continue-in-dummy-compiled-code|enclosing-code-corrupted"
+
 func signature(f *failure, shrunk *irjs.Node) string {
+	if cls := classify(caseProgram(shrunk, f), f); cls != "" {
+		return cls
+	}
+	if f.kind == "panic" {
+		return fmt.Sprintf("%s|panic|%s|%s", f.oracle, normTok(strings.TrimPrefix(f.got, " ABORT ")), skeleton(shrunk))
+	}
 	mode := "sloppy"
 	if f.strict {
 		mode = "strict"
 	}
 	switch f.oracle {
 	case "def":
-		return fmt.Sprintf("def|%s|%s", f.kind, skeleton(shrunk))
+		k := f.kind
+		if f.placement != "global" {
+			k += "@" + f.placement
+		}
+		return fmt.Sprintf("def|%s|%s", k, skeleton(shrunk))
 	case "compile":
 		return fmt.Sprintf("compile|%s|%s|%s", ruleOf(f.rewrite), normMsg(f.got), skeleton(shrunk))
 	}
 	_ = mode
+	if ruleOf(f.rewrite) == "R7evalstr" && strings.Contains(f.got, "THROW error:SyntaxError") && !strings.Contains(f.want, "SyntaxError") {
+		// the function's toString() text does not parse back: classify by the shape of the function, not by the program
+		return "diff|R7evalstr|toString-not-reparseable|" + r7Shape(shrunk, f.rewrite)
+	}
 	return fmt.Sprintf("diff|%s|%s|%s", ruleOf(f.rewrite), f.kind, skeleton(shrunk))
+}
+
+// r7Shape describes the function that rule R7 replaced: its kind and, for an expression-bodied arrow, whether the
+// body is printed in parentheses.
+func r7Shape(p *irjs.Node, desc string) string {
+	var k int
+	fmt.Sscanf(desc[strings.IndexByte(desc, '@')+1:], "%d", &k)
+	i := 0
+	shape := "?"
+	walkSites(p, func(s *site) {
+		n := s.n
+		if s.role != rExpr && s.role != rCallee {
+			return
+		}
+		if !(n.Is("func") || n.Is("arrow") || n.Is("arrowe") || n.Is("class")) {
+			return
+		}
+		if (n.Is("class") && !n.Kids[1].IsNone()) || (!n.Is("class") && usesSuper(n)) {
+			return
+		}
+		if i == k {
+			shape = n.Op
+			if n.Is("arrowe") {
+				b := n.Kids[1]
+				if b.Atom || b.Is("call") || b.Is(".") || b.Is("[]") || b.Is("arr") || b.Is("tpl") {
+					shape += "/bare-body"
+				} else {
+					shape += "/parenthesised-body"
+				}
+			}
+		}
+		i++
+	})
+	return shape
 }
 
 func normMsg(s string) string {
@@ -522,21 +848,100 @@ func normMsg(s string) string {
 	return s
 }
 
+// preSig is a cheap fingerprint of a failure (class + shape of the first difference). The first few failing
+// programs of a fingerprint (the smallest, since enumeration is simplest-first) are confirmed and shrunk to get
+// their signature; later ones are attributed to the signature those produced without repeating the work.
+func preSig(f *failure) string {
+	return fmt.Sprintf("%s|%s|%s|%v|%s", f.oracle, f.kind, ruleOf(f.rewrite), f.strict, firstDiff(f.want, f.got))
+}
+
+func normTok(s string) string {
+	var sb strings.Builder
+	for i := 0; i < len(s); i++ {
+		c := s[i]
+		if c >= '0' && c <= '9' {
+			if sb.Len() == 0 || sb.String()[sb.Len()-1] != '#' {
+				sb.WriteByte('#')
+			}
+			continue
+		}
+		sb.WriteByte(c)
+	}
+	return sb.String()
+}
+
+func firstDiff(a, b string) string {
+	as, bs := strings.Split(a, ";"), strings.Split(b, ";")
+	for i := 0; i < len(as) || i < len(bs); i++ {
+		x, y := "<end>", "<end>"
+		if i < len(as) {
+			x = as[i]
+		}
+		if i < len(bs) {
+			y = bs[i]
+		}
+		if x != y {
+			return normTok(x) + "/" + normTok(y)
+		}
+	}
+	return ""
+}
+
+type sigCacheT struct {
+	mu sync.Mutex
+	m  map[string]*sigEntry
+}
+
+type sigEntry struct {
+	shrunk int
+	sig    string
+	what   string
+	c      Case
+}
+
+var sigCache = sigCacheT{m: map[string]*sigEntry{}}
+
+const shrinkPerFingerprint = 6
+
 // report confirms a failure (5 fresh re-runs), shrinks the program and records the violation.
 func (w *worker) report(p *irjs.Node, slice string, f failure) {
+	cls := classify(caseProgram(p, &f), &f)
+	key := cls
+	if key == "" {
+		key = preSig(&f)
+	}
+	sigCache.mu.Lock()
+	e := sigCache.m[key]
+	if e == nil {
+		e = &sigEntry{}
+		sigCache.m[key] = e
+	}
+	if e.sig != "" && (cls != "" || e.shrunk >= shrinkPerFingerprint) {
+		sig, what, c := e.sig, e.what, e.c
+		sigCache.mu.Unlock()
+		w.r.Violation(sig, what, c)
+		return
+	}
+	e.shrunk++
+	sigCache.mu.Unlock()
+
 	fresh := newWorker(w.r, w.cfg, newShardedSet())
 	for i := 0; i < 5; i++ {
 		fresh.eng = &engine{}
 		fresh.in = irjs.NewInterp(irjs.NewHost())
-		if fresh.findSame(p, &f) == nil {
+		if fresh.recheck(p, &f) == nil {
 			w.r.Violation("nondeterministic|"+f.oracle+"|"+f.kind, "a disagreement did not reproduce on fresh runtimes", w.mkCase(p, p, slice, &f, "nondeterministic"))
 			return
 		}
 	}
-	q, g := fresh.shrink(p, &f)
+	q, g := fresh.shrink(p, &f, cls)
 	sig := signature(g, q)
 	what := describe(g, q)
-	w.r.Violation(sig, what, w.mkCase(q, p, slice, g, sig))
+	c := w.mkCase(q, p, slice, g, sig)
+	sigCache.mu.Lock()
+	e.sig, e.what, e.c = sig, what, c
+	sigCache.mu.Unlock()
+	w.r.Violation(sig, what, c)
 }
 
 func (w *worker) mkCase(q, origin *irjs.Node, slice string, f *failure, sig string) Case {
@@ -580,7 +985,8 @@ func replay(r *core.Run, raw json.RawMessage) {
 	w := newWorker(r, cfg, newShardedSet())
 	f := failure{oracle: c.Oracle, kind: c.Kind, rewrite: c.Rewrite, strict: c.Strict, got: c.Got}
 	r.Eval(1)
-	if g := w.findSame(p, &f); g != nil {
+	f.placement = c.Placement
+	if g := w.recheck(p, &f); g != nil {
 		r.Violation(c.Sig, describe(g, p), w.mkCase(p, p, c.Slice, g, c.Sig))
 	}
 	w.flush()
@@ -588,12 +994,17 @@ func replay(r *core.Run, raw json.RawMessage) {
 
 // ---------- run ----------
 
+var allPlacements = []Placement{PGlobal, PFunc, PArrow, PEval, PGEval}
+
+// fullConfig: every variant in {func, global, eval} x both modes (thorough tier, corpus, replay).
 func fullConfig(pairs bool) *config {
-	return &config{
-		placements:    []Placement{PGlobal, PFunc, PArrow, PEval, PGEval},
-		varPlacements: []Placement{PGlobal, PFunc, PEval},
-		pairs:         pairs,
-	}
+	return &config{placements: allPlacements, allVarPl: true, strictVariants: true, pairs: pairs}
+}
+
+// quickConfig: base program in all placements x both modes; variants in sloppy mode, function placement
+// (+ global code for the completion-sensitive rules).
+func quickConfig() *config {
+	return &config{placements: allPlacements}
 }
 
 func run(r *core.Run) {
@@ -638,7 +1049,7 @@ func runCorpus(r *core.Run, cfg *config, seen *shardedSet, bounds map[string]int
 
 // reportAll checks one program and reports one failure per (oracle, kind, rule) class.
 func reportAll(w *worker, p *irjs.Node, slice string) {
-	fails := w.checkProgram(p, false)
+	fails := w.checkProgram(p)
 	if len(fails) == 0 {
 		return
 	}
@@ -670,6 +1081,18 @@ next:
 }
 
 func runSlices(r *core.Run, seen *shardedSet, bounds map[string]interface{}) bool {
+	slices := slices
+	if only := os.Getenv("C02_SLICES"); only != "" { // development aid: restrict the run to some slices
+		var sel []slice
+		for _, s := range slices {
+			if strings.Contains(","+only+",", ","+s.name+",") {
+				sel = append(sel, s)
+			}
+		}
+		slices = sel
+		r.Exhaustive(false)
+		defer r.Set("slices_restricted_by_env", only)
+	}
 	maxN := 0
 	for _, s := range slices {
 		if n := r.Pick(s.quickN, s.thorN); n > maxN {
@@ -680,7 +1103,10 @@ func runSlices(r *core.Run, seen *shardedSet, bounds map[string]interface{}) boo
 	for i, s := range slices {
 		gs[i] = MustGrammar(s.text, r.Pick(s.quickN, s.thorN))
 	}
-	cfg := fullConfig(false)
+	cfg := quickConfig()
+	if r.Thorough() {
+		cfg = fullConfig(false)
+	}
 	cfgPairs := fullConfig(true)
 	for n := 1; n <= maxN; n++ {
 		for i, s := range slices {
